@@ -6,16 +6,25 @@ package main
 
 import (
 	"bytes"
+	"context"
 	"encoding/hex"
 	"encoding/json"
 	"fmt"
 	"io"
 	"os"
+	"os/exec"
 	"strings"
+	"syscall"
+	"time"
+	"unsafe"
 	"unicode/utf8"
 
+	"github.com/urfave/cli/v2"
+
 	"rare/cmd/helpers"
+	"rare/pkg/color"
 	"rare/pkg/multiterm"
+	"rare/pkg/multiterm/termstate"
 	. "verifh/lib"
 )
 
@@ -24,6 +33,14 @@ type c20Up struct {
 	Text string `json:"text_hex"`
 }
 type c20In struct {
+	// kind 4: writer selection. A child process of this binary whose real standard output is
+	// Out ("tty" a pty of Cols columns, "null" /dev/null, "pipe", "file" a regular temp file)
+	// calls helpers.BuildVTerm(Snapshot) (ViaArgs: helpers.BuildVTermFromArguments on a parsed
+	// command line with --snapshot / --noout), drives the history and closes.
+	Out      string `json:"stdout,omitempty"`
+	Snapshot bool   `json:"snapshot,omitempty"`
+	NoOut    bool   `json:"noout,omitempty"`
+	ViaArgs  bool   `json:"via_args,omitempty"`
 	Kind int     `json:"kind"` // 0 TermWriter, 1 BufferedTerm (helpers.BuildVTerm(true)), 2 VirtualTerm, 3 TermWriter, histories aimed at the right margin (judged as 0)
 	Size int     `json:"size"` // VirtualTerm: NewVirtualTermEx(size, 10)
 	Trim bool    `json:"auto_trim"`
@@ -36,6 +53,311 @@ type c20Out struct {
 	Lines     []string `json:"lines_hex,omitempty"`
 	Count     int      `json:"line_count"`
 	Note      string   `json:"note,omitempty"`
+	// kind 4, as the child process reports them
+	Writer   string `json:"writer,omitempty"`
+	Piped    bool   `json:"is_piped_output,omitempty"`
+	Color    bool   `json:"color_enabled,omitempty"`
+	AutoTrim bool   `json:"auto_trim_seen,omitempty"`
+	ColsSeen int    `json:"cols_seen,omitempty"`
+}
+
+// ---- kind 4: the child ----
+
+type c20ChildSpec struct {
+	Snapshot bool    `json:"snapshot"`
+	NoOut    bool    `json:"noout"`
+	ViaArgs  bool    `json:"via_args"`
+	Ups      []c20Up `json:"updates"`
+}
+type c20ChildReport struct {
+	Writer   string `json:"writer"`
+	Piped    bool   `json:"piped"`
+	Color    bool   `json:"color"`
+	AutoTrim bool   `json:"auto_trim"`
+	Cols     int    `json:"cols"`
+	Panic    string `json:"panic,omitempty"`
+}
+
+// runs with the process-level stdout chosen by the parent; reports on stderr
+func c20Child() {
+	var spec c20ChildSpec
+	rep := c20ChildReport{}
+	defer func() {
+		if e := recover(); e != nil {
+			rep.Panic = fmt.Sprint(e)
+		}
+		b, _ := json.Marshal(rep)
+		os.Stderr.Write(append(b, '\n'))
+	}()
+	if err := json.Unmarshal([]byte(os.Getenv("C20_SELECT_SPEC")), &spec); err != nil {
+		panic(err)
+	}
+	// what the commands see (package initialisers have run against the real stdout)
+	rep.Piped = termstate.IsPipedOutput()
+	rep.Color = color.Enabled
+	rep.AutoTrim = multiterm.AutoTrim
+	rep.Cols = multiterm.TermCols()
+	var vt multiterm.MultilineTerm
+	if spec.ViaArgs {
+		app := cli.NewApp()
+		app.Commands = []*cli.Command{{
+			Name:  "x",
+			Flags: []cli.Flag{helpers.SnapshotFlag, helpers.NoOutFlag, helpers.CSVFlag},
+			Action: func(c *cli.Context) error {
+				vt = helpers.BuildVTermFromArguments(c)
+				return nil
+			},
+		}}
+		args := []string{"rare", "x"}
+		if spec.Snapshot {
+			args = append(args, "--snapshot")
+		}
+		if spec.NoOut {
+			args = append(args, "--noout")
+		}
+		if err := app.Run(args); err != nil {
+			panic(err)
+		}
+	} else {
+		vt = helpers.BuildVTerm(spec.Snapshot)
+	}
+	switch vt.(type) {
+	case *multiterm.TermWriter:
+		rep.Writer = "live"
+	case *multiterm.BufferedTerm:
+		rep.Writer = "buffered"
+	case *multiterm.NullTerm:
+		rep.Writer = "null"
+	default:
+		rep.Writer = fmt.Sprintf("%T", vt)
+	}
+	for _, u := range spec.Ups {
+		b, _ := hex.DecodeString(u.Text)
+		vt.WriteForLine(u.Line, string(b))
+	}
+	vt.Close()
+}
+
+// ---- kind 4: the parent ----
+
+// Linux pty through /dev/ptmx (ioctl numbers of linux/amd64 and arm64)
+func c20Ioctl(fd uintptr, req uintptr, arg unsafe.Pointer) error {
+	if _, _, e := syscall.Syscall(syscall.SYS_IOCTL, fd, req, uintptr(arg)); e != 0 {
+		return e
+	}
+	return nil
+}
+
+func c20OpenPty(cols int) (master, slave *os.File, err error) {
+	m, err := os.OpenFile("/dev/ptmx", os.O_RDWR|syscall.O_NOCTTY, 0)
+	if err != nil {
+		return nil, nil, err
+	}
+	unlock := int32(0)
+	if err = c20Ioctl(m.Fd(), syscall.TIOCSPTLCK, unsafe.Pointer(&unlock)); err != nil {
+		m.Close()
+		return nil, nil, err
+	}
+	var n uint32
+	if err = c20Ioctl(m.Fd(), syscall.TIOCGPTN, unsafe.Pointer(&n)); err != nil {
+		m.Close()
+		return nil, nil, err
+	}
+	sl, err := os.OpenFile(fmt.Sprintf("/dev/pts/%d", n), os.O_RDWR|syscall.O_NOCTTY, 0)
+	if err != nil {
+		m.Close()
+		return nil, nil, err
+	}
+	ws := struct{ Row, Col, X, Y uint16 }{50, uint16(cols), 0, 0}
+	if err = c20Ioctl(sl.Fd(), syscall.TIOCSWINSZ, unsafe.Pointer(&ws)); err != nil {
+		m.Close()
+		sl.Close()
+		return nil, nil, err
+	}
+	return m, sl, nil
+}
+
+var c20PtyOK = func() bool {
+	m, s, err := c20OpenPty(80)
+	if err != nil {
+		return false
+	}
+	m.Close()
+	s.Close()
+	return true
+}
+
+func c20RunSelect(in c20In) (out c20Out) {
+	defer func() {
+		if e := recover(); e != nil {
+			out = c20Out{Completed: false, Note: fmt.Sprint(e)}
+		}
+	}()
+	self, err := os.Executable()
+	if err != nil {
+		panic(err)
+	}
+	spec, _ := json.Marshal(c20ChildSpec{Snapshot: in.Snapshot, NoOut: in.NoOut, ViaArgs: in.ViaArgs, Ups: in.Ups})
+	ctx, cancel := context.WithTimeout(context.Background(), 30*time.Second)
+	defer cancel()
+	cmd := exec.CommandContext(ctx, self, "c20-select-child")
+	cmd.Env = append(os.Environ(), "C20_SELECT_SPEC="+string(spec))
+	var stderr bytes.Buffer
+	cmd.Stderr = &stderr
+	var arrived []byte
+	switch in.Out {
+	case "file":
+		f, err := os.CreateTemp(os.Getenv("VERIF_WORK"), "c20-select-*")
+		if err != nil {
+			f, err = os.CreateTemp("", "c20-select-*")
+			if err != nil {
+				panic(err)
+			}
+		}
+		defer os.Remove(f.Name())
+		defer f.Close()
+		cmd.Stdout = f
+		if err := cmd.Run(); err != nil {
+			panic(fmt.Sprintf("child: %v: %s", err, stderr.String()))
+		}
+		arrived, err = os.ReadFile(f.Name())
+		if err != nil {
+			panic(err)
+		}
+	case "pipe":
+		var buf bytes.Buffer
+		cmd.Stdout = &buf // os/exec connects the child's stdout to a pipe
+		if err := cmd.Run(); err != nil {
+			panic(fmt.Sprintf("child: %v: %s", err, stderr.String()))
+		}
+		arrived = buf.Bytes()
+	case "null":
+		f, err := os.OpenFile("/dev/null", os.O_WRONLY, 0)
+		if err != nil {
+			panic(err)
+		}
+		defer f.Close()
+		cmd.Stdout = f
+		if err := cmd.Run(); err != nil {
+			panic(fmt.Sprintf("child: %v: %s", err, stderr.String()))
+		}
+	case "tty":
+		m, sl, err := c20OpenPty(in.Cols)
+		if err != nil {
+			panic(err)
+		}
+		defer m.Close()
+		cmd.Stdout = sl
+		done := make(chan []byte)
+		go func() {
+			var acc []byte
+			b := make([]byte, 4096)
+			for {
+				n, err := m.Read(b)
+				acc = append(acc, b[:n]...)
+				if err != nil {
+					break
+				}
+			}
+			done <- acc
+		}()
+		err = cmd.Run()
+		sl.Close() // the last slave handle: the master now reads EIO after the buffered bytes
+		select {
+		case arrived = <-done:
+		case <-time.After(20 * time.Second):
+			panic("reading the pty master timed out")
+		}
+		if err != nil {
+			panic(fmt.Sprintf("child: %v: %s", err, stderr.String()))
+		}
+	default:
+		panic("unknown stdout kind " + in.Out)
+	}
+	var rep c20ChildReport
+	lines := strings.Split(strings.TrimSpace(stderr.String()), "\n")
+	if err := json.Unmarshal([]byte(lines[len(lines)-1]), &rep); err != nil {
+		panic(fmt.Sprintf("child report: %v: %q", err, stderr.String()))
+	}
+	if rep.Panic != "" {
+		return c20Out{Completed: false, Note: "child panicked: " + rep.Panic}
+	}
+	out.Completed = true
+	out.Segs = []string{hex.EncodeToString(arrived)}
+	out.Writer, out.Piped, out.Color, out.AutoTrim, out.ColsSeen = rep.Writer, rep.Piped, rep.Color, rep.AutoTrim, rep.Cols
+	return
+}
+
+var c20OutKinds = map[string]int{"tty": 0, "null": 1, "pipe": 2, "file": 4}
+
+func c20SelectCase(in c20In) Case {
+	in.Kind = 4
+	out := c20RunSelect(in)
+	ups := make([]string, len(in.Ups))
+	for i, u := range in.Ups {
+		ups[i] = fmt.Sprintf("(%d,\"%s\")", u.Line, u.Text)
+	}
+	var coq string
+	if out.Completed {
+		w := map[string]int{"live": 0, "buffered": 1, "null": 2}
+		wn, ok := w[out.Writer]
+		if !ok {
+			wn = 9
+		}
+		coq = fmt.Sprintf("cS %d %s %s %s (%d)%%Z %s \"%s\" %d %s %s", c20OutKinds[in.Out], B(in.Snapshot), B(in.NoOut),
+			B(out.AutoTrim), out.ColsSeen, CoqList(ups), out.Segs[0], wn, B(out.Piped), B(out.Color))
+	} else {
+		coq = fmt.Sprintf("cSP %d %s %s false (80)%%Z %s", c20OutKinds[in.Out], B(in.Snapshot), B(in.NoOut), CoqList(ups))
+	}
+	tags := []string{"kind=writer-selection", "stdout=" + in.Out}
+	if in.Snapshot {
+		tags = append(tags, "--snapshot")
+	}
+	if in.NoOut {
+		tags = append(tags, "--noout")
+	}
+	if in.ViaArgs {
+		tags = append(tags, "via=BuildVTermFromArguments")
+	} else {
+		tags = append(tags, "via=BuildVTerm")
+	}
+	kb, _ := json.Marshal(in)
+	return Case{Coq: coq, Desc: map[string]any{"input": in, "impl": out}, Key: string(kb),
+		Nontrivial: len(in.Ups) >= 2 && !in.NoOut, Tags: tags}
+}
+
+func c20SelectCases(r *Rng, n int) []Case {
+	outs := []string{"file", "pipe", "null"}
+	if c20PtyOK() {
+		outs = append(outs, "tty")
+	}
+	h := func(s string) string { return hex.EncodeToString([]byte(s)) }
+	demo := []c20Up{{0, h("first, a rather long text")}, {1, h("second")}, {3, h("fourth")}, {0, h("first")}, {1, h("second line, grown")}}
+	var cases []Case
+	for _, o := range outs {
+		for _, snap := range []bool{false, true} {
+			for _, via := range []bool{false, true} {
+				cases = append(cases, c20SelectCase(c20In{Out: o, Cols: 40, Snapshot: snap, ViaArgs: via, Ups: demo}))
+			}
+		}
+		cases = append(cases, c20SelectCase(c20In{Out: o, Cols: 40, NoOut: true, ViaArgs: true, Ups: demo}))
+		cases = append(cases, c20SelectCase(c20In{Out: o, Cols: 40, ViaArgs: false, Ups: nil}))
+	}
+	for i := 0; i < n; i++ {
+		in := c20In{Out: Pick(r, outs), Cols: r.Range(8, 100), Snapshot: r.Chance(1, 4), ViaArgs: r.Bool()}
+		k := r.Range(1, 10)
+		lines := c20Lines(r, k, r.Range(0, 6))
+		sgr, multi := r.Chance(1, 3), r.Chance(1, 3)
+		for _, l := range lines {
+			vis := r.Intn(30)
+			if in.Out == "tty" && r.Chance(1, 3) {
+				vis = in.Cols + r.Range(-1, 6)
+			}
+			in.Ups = append(in.Ups, c20Up{l, h(c20Text(r, vis, sgr, multi, false))})
+		}
+		cases = append(cases, c20SelectCase(in))
+	}
+	return cases
 }
 
 var c20File *os.File
@@ -184,6 +506,9 @@ func c20Scan(s string) (vis int, wf, sgr, multi bool) {
 }
 
 func c20Case(in c20In) Case {
+	if in.Kind == 4 {
+		return c20SelectCase(in)
+	}
 	out := c20Run(in)
 	ups := make([]string, len(in.Ups))
 	for i, u := range in.Ups {
@@ -574,6 +899,11 @@ func c20Gen(r *Rng, n int, tier string) []Case {
 		{10, hex.EncodeToString([]byte("There"))}, {5, hex.EncodeToString([]byte("This is Test"))}}}))
 	cases = append(cases, c20Case(c20In{Kind: 2, Trim: true, Cols: 10, Ups: []c20Up{
 		{0, hex.EncodeToString([]byte("hello there this \x1b123m is a longer than 10 char string"))}}}))
+	if tier == "thorough" {
+		cases = append(cases, c20SelectCases(r.Fork(), 200)...)
+	} else {
+		cases = append(cases, c20SelectCases(r.Fork(), 24)...)
+	}
 	base := len(cases)
 	for len(cases) < base+n {
 		cases = append(cases, c20Case(c20Random(r)))
@@ -582,11 +912,16 @@ func c20Gen(r *Rng, n int, tier string) []Case {
 }
 
 func main() {
+	if len(os.Args) >= 2 && os.Args[1] == "c20-select-child" {
+		c20Child()
+		return
+	}
 	Main(&Prop{
 		Name:   "C20",
 		Header: "From Coq Require Import List NArith ZArith String.\nFrom RareV Require Import Corr.C20Case.\nImport ListNotations.\nOpen Scope N_scope. Open Scope string_scope.\n",
 		Rule: "fixed part: every history of at most 2 (quick) / 3 (thorough) updates over lines {0,1,2} and texts {\"\", a, abc, bold ab} through TermWriter at (trim on, width 2) and (trim off, width 3); " +
 			"the trim on every text of length <= 4 (quick) / 5 (thorough) over {a, ESC, '[', '1', 'm'} at widths 1..3 (as VirtualTerm lines); the histories of the package's own tests. " +
+			"writer selection: a child process of the harness whose real standard output is a regular temp file / a pipe / /dev/null / a pty with a chosen window size (when /dev/ptmx is usable) runs helpers.BuildVTerm(snapshot) or helpers.BuildVTermFromArguments (--snapshot, --noout) and a history, and reports the writer it got, termstate.IsPipedOutput, color.Enabled, AutoTrim and the width as the commands see them; the bytes that arrived are compared with the model's (file, pipe: the buffered writer's final lines; pty: the screen of the reference terminal; /dev/null: nothing is observable, only the consistency of the report is required): every combination over one fixed history plus 24 (quick) / 200 (thorough) seeded ones. " +
 			"seeded part: 60% TermWriter (multiterm.New, os.Stdout redirected to a file, the output of every call recorded separately), 10% TermWriter with every text at least as wide as the terminal (finding C20-dec-margin, repaired: a row filled to the last column), 20% BufferedTerm through helpers.BuildVTerm(true), 10% VirtualTerm (NewVirtualTermEx with initial size 0..5, WriteToOutput into a buffer, Get(-1..LineCount), LineCount); " +
 			"widths 1..120 (weighted to 1..3, 4..12, 80) and occasionally 0/-1, AutoTrim on (60%) / off; 0..40 updates over at most 12 lines in five orders (top-to-bottom redraw, bottom-up, one line hammered, growing frontier with jumps back, random); " +
 			"texts with a chosen number of visible runes aimed at the width (0, width-1, width, width+1, 2*width, random), ASCII and multi-byte runes (2, 3 and 4 byte encodings, U+FFFD, U+10FFFF), SGR sequences with and without a trailing reset, and in 10% of the histories texts outside the theorem's domain (TAB, lone ESC, unterminated sequence, other CSI sequences, invalid UTF-8, C1 controls). " +
